@@ -100,7 +100,7 @@ theorem update_order_of_steps (w : World) (mid : Nat) (book : Book) (script : Na
         let (w, rs) := w.doActions mid (script s.id)
         (w, outs ++ [(s.id, rs)])
       else (w, outs)) (w5, []), ?_, rfl⟩
-  unfold processMarketBook
+  unfold processMarketBook setClock
   have hne : (({ w with clock := book.pt } : World).queue.isEmpty) = false := by
     cases hw : w.queue with
     | nil => exact absurd hw hq
@@ -108,7 +108,7 @@ theorem update_order_of_steps (w : World) (mid : Nat) (book : Book) (script : Na
   simp only [hne, Bool.false_eq_true, if_false, hopen]
 
 /-- C07.5 the clock during an update is its publish time -/
-theorem clock_is_publish_time (w : World) (pt : Time) : ({ w with clock := pt } : World).clock = pt := rfl
+theorem clock_is_publish_time (w : World) (pt : Time) : (w.setClock pt).clock = pt := rfl
 
 /-- C07.3 which orders the simulated matching touches -/
 theorem pending_not_matched (o : Order) (h : o.status = some .pending) : isMwLive o = false := by
